@@ -39,13 +39,17 @@ Print Assumptions C11_args_unchanged.
 (* nothing in the package keeps state from one call to the next.  Gen/StateSites.v is regenerated on every run from every
    .py of the package (translator/statesites.py): `global` statements, memoising decorators, module-level or class-level
    containers / instances that some function mutates, mutable defaults that are mutated, stores into option objects (they
-   belong to the caller), iteration directly over a set (hash-seed dependent order), changes of interpreter-wide state.
+   belong to the caller), iteration directly over a set (hash-seed dependent order), calls of random / time / uuid / id / hash, changes of
+   interpreter-wide state.
    The list must be exactly the reviewed one:
      compare_ast loops over set(l_ast._fields + r_ast._fields): every field is compared whatever the order and the loop
      produces nothing but "raise or not" (which mismatch is reported first is the only thing the order decides; minify()
-     turns any of them into the same UnstableMinification), so the output bytes do not depend on it. *)
+     turns any of them into the same UnstableMinification), so the output bytes do not depend on it;
+     random_generator draws random names, but nothing refers to it: a reference anywhere in the package would appear here as
+     a `nondeterministic-use` entry (the name stream the renamer really uses is Gen/NameGen.v, compared by leg R). *)
 Definition reviewed_state_sites : list (string * string * string * string) :=
-  [("ast_compare.py", "compare_ast", "set-order", "set(l_ast._fields + r_ast._fields)")].
+  [("ast_compare.py", "compare_ast", "set-order", "set(l_ast._fields + r_ast._fields)");
+   ("rename/name_generator.py", "random_generator", "nondeterministic", "random.choice")].
 Theorem C11_no_state_outlives_a_call : state_sites = reviewed_state_sites.
 Proof. reflexivity. Qed.
 Print Assumptions C11_no_state_outlives_a_call.
